@@ -33,6 +33,7 @@ VARIABLES l,        \* index of the next line
           ref,      \* C03: complete output of the reference instance of the segment
           cev,      \* node number -> set of committed event ids (observed)
           ctx,      \* node number -> bag of committed transactions (observed)
+          base,     \* node number -> [idx, ps]: fast-sync anchor index (-1: none) and the validator-set table right after adoption
           last,     \* node number -> [lcr, ps] as last observed (C10)
           pools,    \* node number -> transaction pool as last observed
           lostSet,  \* nodes that suffered an injected store fault (no longer "honest full-history" nodes)
@@ -43,7 +44,7 @@ VARIABLES l,        \* index of the next line
           drift,    \* accumulated conformance mismatches
           stats     \* counters (for vacuity control)
 
-vars == << l, D, nodes, dlv, sto, psto, rrv, meta, ref, cev, ctx, last, pools, lostSet, evals, fames, sub, viol, drift, stats >>
+vars == << l, D, nodes, dlv, sto, psto, rrv, meta, ref, cev, ctx, base, last, pools, lostSet, evals, fames, sub, viol, drift, stats >>
 
 Line == Trace[l]
 NodeNums == DOMAIN nodes
@@ -74,19 +75,25 @@ Stats0 == [ lines |-> 0, syncs |-> 0, inserts |-> 0, blocks |-> 0, traces |-> 0,
 BodyFields(b) == << b.idx, b.rr, b.txs, b.itxs, b.rcpt, b.fh, b.ph, b.ts, b.big, b.sh, b.dig >>
 
 \* C01: any two nodes' delivered sequences agree index by index
+BlockAt(dvn, idx) ==
+    LET k == IF dvn = << >> THEN 0 ELSE idx - dvn[1].idx + 1 IN
+    IF k \in 1..Len(dvn) /\ dvn[k].idx = idx THEN << dvn[k] >> ELSE << >>
+
 Inv_C01_Agreement(dv, lost, n, from) ==
     \* (checked for the blocks node n delivered in this step against every
-    \* other node's block at the same position; older positions were checked
-    \* when the later of the two was delivered)
+    \* other node's block with the same index; older ones were checked when
+    \* the later of the two was delivered)
     n \in lost \/
     \A b \in (DOMAIN dv) \ (lost \cup {n}) :
-        \A i \in from..MinI(Len(dv[n]), Len(dv[b])) :
-            BodyFields(dv[n][i]) = BodyFields(dv[b][i])
+        \A i \in from..Len(dv[n]) :
+            LET ob == BlockAt(dv[b], dv[n][i].idx) IN
+            ob = << >> \/ BodyFields(ob[1]) = BodyFields(dv[n][i])
 
 \* C02: consecutive indexes from the first delivered one, rr strictly increasing
-Inv_C02_Consecutive(dvn, from) ==
+Inv_C02_Consecutive(dvn, from, baseIdx) ==
+    \* delivery starts at 0, or at the block after a fast-sync anchor
     \A i \in from..Len(dvn) :
-        /\ dvn[i].idx = dvn[1].idx + i - 1
+        /\ dvn[i].idx = baseIdx + i
         /\ i > 1 => dvn[i].rr > dvn[i-1].rr
 
 \* C02: the store keeps reporting the delivered body (with state hash and
@@ -124,7 +131,7 @@ Inv_C04_Once(cevn, o) ==
 \* (ii) a block holds exactly the events received in its round, and inside it
 \* parents precede children.  Blocks are delivered in increasing
 \* round-received (C02), so the committed order extends ancestry.
-Inv_C04_Causal(DD, rv, o, dvn) ==
+Inv_C04_Causal(DD, rv, o, dvn, belowFrame, baseRR) ==
     LET hasPayload(r) == \E e \in DOMAIN rv : rv[e] = r /\ e \in DOMAIN DD /\ (DD[e].txs # << >> \/ DD[e].itxs # << >>)
         deliveredBefore(r, i) == \E j \in 1..(i - 1) : dvn[j].rr = r
     IN
@@ -134,8 +141,9 @@ Inv_C04_Causal(DD, rv, o, dvn) ==
             \* the parent is received no later, and if its frame carries payload
             \* its block was delivered before this one
             okp(p) == p = "" \/ p \notin DOMAIN DD
+                      \/ (belowFrame /\ p \notin DOMAIN rv)      \* not held: below the fast-sync frame
                       \/ (/\ p \in DOMAIN rv /\ rv[p] <= b.rr
-                          /\ (rv[p] < b.rr /\ hasPayload(rv[p])) => deliveredBefore(rv[p], i))
+                          /\ (rv[p] < b.rr /\ rv[p] > baseRR /\ hasPayload(rv[p])) => deliveredBefore(rv[p], i))
         IN  \A m \in 1..Len(b.evs) : okp(DD[b.evs[m]].sp) /\ okp(DD[b.evs[m]].op)
 
 \* an event is never received in a round whose frame was already processed
@@ -242,7 +250,7 @@ ReplayPS(tb, dvn, k) ==
          IN  IF ~changed THEN ReplayPS(tb, dvn, k + 1)
              ELSE ReplayPS(Ext(tb, b.rr + 6, ApplyObserved(LatestOf(tb), b.itxs, b.rcpt, 1)), dvn, k + 1)
 
-Inv_C10_HistoryIsReplay(base, dvn, o) == PSTable(o.ps) = ReplayPS(base, dvn, 1)
+Inv_C10_HistoryIsReplay(tb0, dvn, o) == PSTable(o.ps) = ReplayPS(tb0, dvn, 1)
 
 Inv_C10_NoRetroactive(prev, o) ==
     LET tb == PSTable(o.ps) IN
@@ -294,11 +302,14 @@ Inv_C09_AnchorTrusted(o) ==
 Inv_C09_AnchorMonotone(prevAnchor, o) == o.anchor >= prevAnchor
 
 \* a node signs only blocks it has delivered itself
-Inv_C09_SignsOnlyDelivered(me, dvn, o) ==
+Inv_C09_SignsOnlyDelivered(me, dvn, o, baseIdx) ==
+    \* (blocks at or below a fast-sync anchor were delivered by an earlier
+    \* incarnation or came with the anchor)
     LET delivered == { dvn[i].idx : i \in 1..Len(dvn) } IN
-    /\ SeqToSet(o.selfsigs) \subseteq delivered
+    /\ \A i \in SeqToSet(o.selfsigs) : i > baseIdx => i \in delivered
     /\ \A k \in 1..Len(o.store) :
-          (\E j \in 1..Len(o.store[k].sigs) : o.store[k].sigs[j].by = me) => o.store[k].idx \in delivered
+          (o.store[k].idx > baseIdx /\ \E j \in 1..Len(o.store[k].sigs) : o.store[k].sigs[j].by = me)
+              => o.store[k].idx \in delivered
 
 -----------------------------------------------------------------------------
 (* Conformance checks: specification result = logged implementation result *)
@@ -466,6 +477,7 @@ TInit ==
     /\ ref = [ set |-> FALSE ]
     /\ pools = EmptyFun
     /\ last = EmptyFun
+    /\ base = EmptyFun
     /\ cev = EmptyFun
     /\ ctx = EmptyFun
     /\ lostSet = {}
@@ -490,6 +502,7 @@ TraceReset ==
            /\ pools' = [ n \in ns |-> << >> ]
            /\ last' = [ n \in ns |-> [ lcr |-> -1, ps |-> (0 :> gen), anchor |-> -1 ] ]
            /\ cev' = [ n \in ns |-> {} ]
+           /\ base' = [ n \in ns |-> [ idx |-> -1, rr |-> -1, ps |-> (0 :> gen) ] ]
            /\ ctx' = [ n \in ns |-> << >> ]
     /\ lostSet' = {}
     /\ D' = EmptyFun
@@ -505,7 +518,7 @@ TraceCreate ==
     /\ Line.a = "Create"
     /\ D' = Ext(D, Line.x.id, EvRec(Line.x))
     /\ stats' = Bump(Bump(stats, "creates"), "lines")
-    /\ UNCHANGED << nodes, dlv, sto, psto, rrv, meta, cev, ctx, last, pools, lostSet, evals, fames, ref, sub, viol, drift >>
+    /\ UNCHANGED << nodes, dlv, sto, psto, rrv, meta, cev, ctx, base, last, pools, lostSet, evals, fames, ref, sub, viol, drift >>
 
 TraceSubmit ==
     /\ Line.a = "Submit"
@@ -514,7 +527,7 @@ TraceSubmit ==
     /\ sub' = Ext(sub, Line.x.tx, Append(Get(sub, Line.x.tx, << >>), Line.n))
     /\ pools' = IF Line.n \in DOMAIN pools THEN [ pools EXCEPT ![Line.n] = Append(@, Line.x.tx) ] ELSE pools
     /\ stats' = Bump(stats, "lines")
-    /\ UNCHANGED << D, dlv, sto, psto, rrv, meta, cev, ctx, last, lostSet, evals, fames, ref, viol, drift >>
+    /\ UNCHANGED << D, dlv, sto, psto, rrv, meta, cev, ctx, base, last, lostSet, evals, fames, ref, viol, drift >>
 
 \* Everything a Sync line implies, computed once (TLC caches LET values inside
 \* an operator, not inside an action).
@@ -550,14 +563,14 @@ SyncOutcome(n, x, o) ==
         crossRR == lostNow \/ \A e \in DOMAIN rrNew : \A m \in (DOMAIN rrv) \ lost1 : (m # n /\ e \in DOMAIN rrv[m]) => rrv[m][e] = rrNew[e]
         crossFame == lostNow \/ \A e \in DOMAIN fameNew : e \in DOMAIN fames => fames[e] = fameNew[e]
         V == Checks("C01", "Inv_C01_Agreement", o.blocks = << >> \/ Inv_C01_Agreement(dlv1, lost1, n, from))
-             \cup Checks("C02", "Inv_C02_Consecutive", o.blocks = << >> \/ Inv_C02_Consecutive(dlv1[n], from))
+             \cup Checks("C02", "Inv_C02_Consecutive", o.blocks = << >> \/ Inv_C02_Consecutive(dlv1[n], from, base[n].idx))
              \cup Checks("C02", "Inv_C02_StoreKeepsDelivered", ~hasStore \/ Inv_C02_StoreKeepsDelivered(dlv1[n], sto1[n]))
              \cup Checks("C02", "Inv_C02_SigsOnlyGrow", ~hasStore \/ Inv_C02_SigsOnlyGrow(sto1[n], psto1[n]))
              \cup Checks("C03", "Inv_C03_CrossNodeValues", crossVals)
              \cup Checks("C03", "Inv_C03_CrossNodeRoundReceived", crossRR)
              \cup Checks("C03", "Inv_C03_CrossNodeFame", crossFame)
              \cup Checks("C04", "Inv_C04_Once", o.blocks = << >> \/ Inv_C04_Once(cev[n], o))
-             \cup Checks("C04", "Inv_C04_Causal", Inv_C04_Causal(D, rv1, o, dlv1[n]))
+             \cup Checks("C04", "Inv_C04_Causal", Inv_C04_Causal(D, rv1, o, dlv1[n], base[n].idx >= 0, base[n].rr))
              \cup Checks("C04", "Inv_C04_BlockIsFrame", Inv_C04_BlockIsFrame(D, rv1, o))
              \cup Checks("C04", "Inv_C04_NoLateReceive", lostNow \/ Inv_C04_NoLateReceive(nd.h.lcr, o))
              \cup Checks("C04", "Inv_C04_Payload", o.blocks = << >> \/ Inv_C04_Payload(D, dlv1[n], from))
@@ -569,8 +582,8 @@ SyncOutcome(n, x, o) ==
              \cup Checks("C09", "Inv_C09_RecordedSigsValid", ~hasStore \/ Inv_C09_RecordedSigsValid(o))
              \cup Checks("C09", "Inv_C09_AnchorTrusted", ~hasStore \/ Inv_C09_AnchorTrusted(o))
              \cup Checks("C09", "Inv_C09_AnchorMonotone", Inv_C09_AnchorMonotone(last[n].anchor, o))
-             \cup Checks("C09", "Inv_C09_SignsOnlyDelivered", ~hasStore \/ lostNow \/ Inv_C09_SignsOnlyDelivered(nd.h.me, dlv1[n], o))
-             \cup Checks("C10", "Inv_C10_HistoryIsReplay", lostNow \/ Inv_C10_HistoryIsReplay(0 :> AsSeq(meta.genesis), dlv1[n], o))
+             \cup Checks("C09", "Inv_C09_SignsOnlyDelivered", ~hasStore \/ lostNow \/ Inv_C09_SignsOnlyDelivered(nd.h.me, dlv1[n], o, base[n].idx))
+             \cup Checks("C10", "Inv_C10_HistoryIsReplay", lostNow \/ Inv_C10_HistoryIsReplay(base[n].ps, dlv1[n], o))
              \cup Checks("C10", "Inv_C10_NoRetroactive", Inv_C10_NoRetroactive(last[n], o))
              \cup Checks("C10", "Inv_C10_SameAcrossNodes", lostNow \/ Inv_C10_SameAcrossNodes(n, o, last, lost1))
              \cup Checks("C10", "Inv_C10_BlockPeers", Inv_C10_BlockPeers(o))
@@ -620,7 +633,7 @@ TraceSync ==
           /\ viol' = R.viol
           /\ drift' = R.drift
           /\ stats' = R.stats
-    /\ UNCHANGED << D, sub, meta, ref >>
+    /\ UNCHANGED << D, sub, meta, ref, base >>
 
 -----------------------------------------------------------------------------
 (* C19: rows tabulated from the real PeerSet: << n, SuperMajority, TrustCount, Len >> *)
@@ -655,14 +668,14 @@ TraceQuorum ==
           /\ viol' = AddCapped(viol, R.v)
           /\ drift' = AddCapped(drift, R.f)
           /\ stats' = [ stats EXCEPT !.lines = @ + 1, !.inserts = @ + R.n ]
-    /\ UNCHANGED << D, nodes, dlv, sto, psto, rrv, meta, cev, ctx, last, pools, lostSet, evals, fames, ref, sub >>
+    /\ UNCHANGED << D, nodes, dlv, sto, psto, rrv, meta, cev, ctx, base, last, pools, lostSet, evals, fames, ref, sub >>
 
 TraceQuorumAccept ==
     /\ Line.a = "QuorumAccept"
     /\ LET rows == Line.x.rows IN
        /\ viol' = AddCapped(viol, Checks("C19", "Inv_C19_Accept", \A k \in 1..Len(rows) : Inv_C19_Accept(rows[k])))
        /\ stats' = [ stats EXCEPT !.lines = @ + 1, !.inserts = @ + Len(rows), !.blocks = @ + Len(rows) ]
-    /\ UNCHANGED << D, nodes, dlv, sto, psto, rrv, meta, cev, ctx, last, pools, lostSet, evals, fames, ref, sub, drift >>
+    /\ UNCHANGED << D, nodes, dlv, sto, psto, rrv, meta, cev, ctx, base, last, pools, lostSet, evals, fames, ref, sub, drift >>
 
 -----------------------------------------------------------------------------
 (* C03: one DAG, many instances                                            *)
@@ -720,7 +733,7 @@ TraceHgInsert ==
     /\ Line.a = "HgInsert"
     /\ \E R \in { HgOutcome(Line.n, Line.x, Line.o) } :
           /\ nodes' = R.nodes /\ ref' = R.ref /\ drift' = R.drift /\ stats' = R.stats
-    /\ UNCHANGED << D, dlv, sto, psto, rrv, meta, cev, ctx, last, pools, lostSet, evals, fames, sub, viol >>
+    /\ UNCHANGED << D, dlv, sto, psto, rrv, meta, cev, ctx, base, last, pools, lostSet, evals, fames, sub, viol >>
 
 TraceInstance ==
     /\ Line.a = "Instance"
@@ -751,7 +764,7 @@ TraceInstance ==
     /\ stats' = [ stats EXCEPT !.lines = @ + 1, !.inserts = @ + Line.x.nins,
                                !.blocks = @ + Len(Line.o.blocks),
                                !.skipped = @ + (IF Line.o.err # "" THEN 1 ELSE 0) ]
-    /\ UNCHANGED << D, nodes, dlv, sto, psto, rrv, meta, cev, ctx, last, pools, lostSet, evals, fames, ref, sub, drift >>
+    /\ UNCHANGED << D, nodes, dlv, sto, psto, rrv, meta, cev, ctx, base, last, pools, lostSet, evals, fames, ref, sub, drift >>
 
 \* common.Median tabulated from the real code on enumerated lists
 TraceMedian ==
@@ -760,7 +773,7 @@ TraceMedian ==
        /\ viol' = AddCapped(viol, Checks("C18", "Inv_C18_MedianFunction",
                         \A k \in 1..Len(rows) : Median(AsSeq(rows[k].l)) = rows[k].m))
        /\ stats' = [ stats EXCEPT !.lines = @ + 1, !.inserts = @ + Len(rows) ]
-    /\ UNCHANGED << D, nodes, dlv, sto, psto, rrv, meta, cev, ctx, last, pools, lostSet, evals, fames, ref, sub, drift >>
+    /\ UNCHANGED << D, nodes, dlv, sto, psto, rrv, meta, cev, ctx, base, last, pools, lostSet, evals, fames, ref, sub, drift >>
 
 -----------------------------------------------------------------------------
 (* node mode: membership                                                   *)
@@ -778,6 +791,7 @@ TraceNodeUp ==
            /\ pools' = Ext(pools, n, << >>)
            /\ last' = Ext(last, n, [ lcr |-> -1, ps |-> (0 :> gen), anchor |-> -1 ])
            /\ cev' = Ext(cev, n, {})
+           /\ base' = Ext(base, n, [ idx |-> -1, rr |-> -1, ps |-> (0 :> gen) ])
            /\ ctx' = Ext(ctx, n, << >>)
            /\ lostSet' = lostSet \ {n}
     /\ stats' = Bump(stats, "lines")
@@ -788,7 +802,7 @@ TraceAddItx ==
     /\ Line.a = "AddItx"
     /\ nodes' = [ nodes EXCEPT ![Line.n].itxpool = Append(@, Line.x.itx) ]
     /\ stats' = Bump(stats, "lines")
-    /\ UNCHANGED << D, dlv, sto, psto, rrv, meta, ref, cev, ctx, last, pools, lostSet, evals, fames, sub, viol, drift >>
+    /\ UNCHANGED << D, dlv, sto, psto, rrv, meta, ref, cev, ctx, base, last, pools, lostSet, evals, fames, sub, viol, drift >>
 
 \* a join / leave call returned
 TraceOpDone ==
@@ -798,7 +812,7 @@ TraceOpDone ==
                                     ![Line.n].h.removedRound = -1 ]
                 ELSE nodes
     /\ stats' = Bump(stats, "lines")
-    /\ UNCHANGED << D, dlv, sto, psto, rrv, meta, ref, cev, ctx, last, pools, lostSet, evals, fames, sub, viol, drift >>
+    /\ UNCHANGED << D, dlv, sto, psto, rrv, meta, ref, cev, ctx, base, last, pools, lostSet, evals, fames, sub, viol, drift >>
 
 -----------------------------------------------------------------------------
 (* C07: an insertion attempt (tampered or valid) offered to an honest core *)
@@ -822,7 +836,7 @@ TraceOffer ==
        IN  viol' = AddCapped(viol, V)
     /\ stats' = [ stats EXCEPT !.lines = @ + 1, !.inserts = @ + 1,
                                !.skipped = @ + (IF Line.o.accepted THEN 0 ELSE 1) ]
-    /\ UNCHANGED << D, nodes, dlv, sto, psto, rrv, meta, cev, ctx, last, pools, lostSet, evals, fames, ref, sub, drift >>
+    /\ UNCHANGED << D, nodes, dlv, sto, psto, rrv, meta, cev, ctx, base, last, pools, lostSet, evals, fames, ref, sub, drift >>
 
 -----------------------------------------------------------------------------
 (* C06: after the fair all-pairs phase every live node is idle and every   *)
@@ -841,20 +855,79 @@ TraceLiveCheck ==
                 \cup Checks("C06", "Inv_C06_NoLoadedEventPending", \A k \in 1..Len(o.loaded) : o.loaded[k] = 0)
        IN  viol' = AddCapped(viol, V)
     /\ stats' = [ stats EXCEPT !.lines = @ + 1, !.fameDecided = @ + Line.x.cycles ]
-    /\ UNCHANGED << D, nodes, dlv, sto, psto, rrv, meta, cev, ctx, last, pools, lostSet, evals, fames, ref, sub, drift >>
+    /\ UNCHANGED << D, nodes, dlv, sto, psto, rrv, meta, cev, ctx, base, last, pools, lostSet, evals, fames, ref, sub, drift >>
+
+-----------------------------------------------------------------------------
+(* C12 / C13 / C14: a fast-forward response offered to a node               *)
+
+FrameOfObs(fo) ==
+    [ round |-> fo.round, peers |-> AsSeq(fo.peers),
+      roots |-> FunOfSeq(fo.roots, LAMBDA v : v.c, LAMBDA v : AsSeq(v.evs)),
+      evs |-> AsSeq(fo.evs),
+      psets |-> PSTable(fo.psets),
+      info |-> FunOfSeq(fo.info, LAMBDA v : v.e, LAMBDA v : [ rnd |-> v.rnd, wit |-> v.wit, lt |-> v.lt ]),
+      fws |-> {}, tss |-> << >> ]
+
+FFOutcome(n, x, o) ==
+    LET d == x.desc
+        V == ChecksD("C12", "Inv_C12_AdoptOnlyValid", d, o.adopted => x.valid)
+             \cup ChecksD("C12", "Inv_C12_RefusalIsNoOp", d, o.adopted \/ ~o.changed)
+             \cup ChecksD("C12", "Inv_C12_ValidAdopted", d, (d \in { "none", "none-from-lagging-server" } /\ x.valid) => o.adopted)
+             \cup ChecksD("C14", "Inv_C14_NoStrangerAnchor", d, o.adopted => x.trusted_signer)
+             \cup ChecksD("C08", "Inv_C08_NoPanic", "fast-forward:" \o d, ~o.panicked)
+        nd == nodes[n]
+        fr == FrameOfObs(x.frame)
+        blk == [ idx |-> x.block.idx, rr |-> x.block.rr, evs |-> fr.evs, txs |-> AsSeq(x.block.txs),
+                 itxs |-> AsSeq(x.block.itxs), rcpt |-> AsSeq(x.block.rcpt), ts |-> 0, peers |-> fr.peers,
+                 fws |-> {}, sigs |-> SeqToSet(x.block.signers) ]
+        h1 == Reset(D, nd.h, blk, fr)
+        \* node.fastForward then applies the anchor block's receipts
+        itxs1 == [ k \in 1..Len(blk.itxs) |-> [ blk.itxs[k] EXCEPT !.ok = (k <= Len(blk.rcpt) /\ blk.rcpt[k]) ] ]
+        h2 == ApplyMembership(h1, blk.rr, itxs1, nd.h.me)
+        hd == IF nd.h.me \in Repertoire(h2) THEN LastFrom(h2, nd.h.me) ELSE NoEv
+        nd1 == [ nd EXCEPT !.h = h2, !.head = hd, !.seq = IF hd = NoEv THEN -1 ELSE D[hd].i ]
+        frameEvs == DOMAIN fr.info
+        F == Checks("-", "Conf_FF_Known", ConfKnown(h2, o))
+             \cup Checks("-", "Conf_FF_PS", ConfPS(h2, o))
+             \cup Checks("-", "Conf_FF_Scalars", ConfScalars(h2, o))
+             \cup Checks("-", "Conf_FF_Head", nd1.head = o.head /\ nd1.seq = o.seq)
+    IN  IF ~o.adopted
+        THEN [ adopted |-> FALSE, viol |-> AddCapped(viol, V) ]
+        ELSE [ adopted |-> TRUE, viol |-> AddCapped(viol, V), drift |-> AddCapped(drift, F),
+               nodes |-> [ nodes EXCEPT ![n] = nd1 ],
+               rrv |-> [ rrv EXCEPT ![n] = Strict([ e \in frameEvs |-> blk.rr ]) ],
+               base |-> [ base EXCEPT ![n] = [ idx |-> blk.idx, rr |-> blk.rr, ps |-> PSTable(o.ps) ] ],
+               last |-> [ last EXCEPT ![n] = [ lcr |-> o.lcr, ps |-> PSTable(o.ps), anchor |-> o.anchor ] ] ]
+
+TraceFFOffer ==
+    /\ Line.a = "FFOffer"
+    /\ \E R \in { FFOutcome(Line.n, Line.x, Line.o) } :
+          /\ viol' = R.viol
+          /\ IF R.adopted
+             THEN /\ nodes' = R.nodes /\ rrv' = R.rrv /\ base' = R.base /\ last' = R.last /\ drift' = R.drift
+                  /\ dlv' = [ dlv EXCEPT ![Line.n] = << >> ]
+                  /\ sto' = [ sto EXCEPT ![Line.n] = << >> ]
+                  /\ psto' = [ psto EXCEPT ![Line.n] = << >> ]
+                  /\ pools' = [ pools EXCEPT ![Line.n] = AsSeq(Line.o.txpool) ]
+                  \* delivery starts again after the anchor (the application was restored to it)
+                  /\ cev' = [ cev EXCEPT ![Line.n] = {} ]
+                  /\ ctx' = [ ctx EXCEPT ![Line.n] = << >> ]
+             ELSE UNCHANGED << nodes, rrv, base, last, drift, dlv, sto, psto, pools, cev, ctx >>
+    /\ stats' = [ stats EXCEPT !.lines = @ + 1, !.coinVotes = @ + (IF Line.o.adopted THEN 1 ELSE 0) ]
+    /\ UNCHANGED << D, meta, ref, lostSet, evals, fames, sub >>
 
 \* lines that carry no specification step (the driver could not run the step)
 TraceNoop ==
     /\ Line.a \in { "SyncFail", "Note", "StateChange" }
     /\ stats' = Bump(stats, "lines")
-    /\ UNCHANGED << D, nodes, dlv, sto, psto, rrv, meta, cev, ctx, last, pools, lostSet, evals, fames, ref, sub, viol, drift >>
+    /\ UNCHANGED << D, nodes, dlv, sto, psto, rrv, meta, cev, ctx, base, last, pools, lostSet, evals, fames, ref, sub, viol, drift >>
 
 TraceStep ==
     /\ l <= NLines
     /\ l' = l + 1
     /\ \/ TraceReset \/ TraceCreate \/ TraceSubmit \/ TraceSync \/ TraceNoop
        \/ TraceQuorum \/ TraceQuorumAccept \/ TraceMedian \/ TraceHgInsert \/ TraceInstance
-       \/ TraceNodeUp \/ TraceAddItx \/ TraceOpDone \/ TraceOffer \/ TraceLiveCheck
+       \/ TraceNodeUp \/ TraceAddItx \/ TraceOpDone \/ TraceOffer \/ TraceLiveCheck \/ TraceFFOffer
 
 TraceDone ==
     /\ l = NLines + 1
@@ -863,7 +936,7 @@ TraceDone ==
     /\ PrintT(<< "@@DRIFT", drift >>)
     /\ PrintT(<< "@@STATS", stats >>)
     /\ PrintT(<< "@@DONE", NLines >>)
-    /\ UNCHANGED << D, nodes, dlv, sto, psto, rrv, meta, ref, cev, ctx, last, pools, lostSet, evals, fames, sub, viol, drift, stats >>
+    /\ UNCHANGED << D, nodes, dlv, sto, psto, rrv, meta, ref, cev, ctx, base, last, pools, lostSet, evals, fames, sub, viol, drift, stats >>
 
 TNext == TraceStep \/ TraceDone
 
